@@ -121,20 +121,23 @@ def check_case(case) -> Outcome:
     return Outcome(nontrivial=nt, labels=tuple(labels), failures=tuple(uniq))
 
 
-def case_strategy(opts=None, max_ops=5):
+def case_strategy(opts=None, max_ops=5, min_ops=0):
     from hypothesis import strategies as st
 
     @st.composite
     def cases(draw):
-        return {"kind": "program", "prog": draw(P.programs("dag", max_ops=max_ops, opts=opts)), "perm_seed": draw(st.integers(0, 10**6))}
+        return {"kind": "program", "prog": draw(P.programs("dag", max_ops=max_ops, min_ops=min_ops, opts=opts)), "perm_seed": draw(st.integers(0, 10**6))}
 
     return cases()
 
 
 def shards(tier):
+    fams = list(c01.FOCUS)
     if tier == "quick":
-        return [{"kind": "program", "name": f"dag{i}", "n": 90, "rotate": 3 + i * 29} for i in range(7)]
-    return [{"kind": "program", "name": f"dag{i}", "n": 1500, "rotate": 3 + i * 29} for i in range(16)]
+        return [{"kind": "program", "name": f"dag{i}", "n": 90, "rotate": 3 + i * 29} for i in range(5)] + [
+            {"kind": "program", "name": f"focus-{f}", "n": 90, "rotate": 5 + j * 13, "focus": f, "max_ops": 2, "min_ops": 1} for j, f in enumerate(fams)]
+    return [{"kind": "program", "name": f"dag{i}", "n": 1500, "rotate": 3 + i * 29} for i in range(12)] + [
+        {"kind": "program", "name": f"focus-{f}", "n": 1800, "rotate": 5 + j * 13, "focus": f, "max_ops": 2, "min_ops": 1} for j, f in enumerate(fams)]
 
 
 def run_shard(spec, seed, tier) -> Acc:
@@ -142,7 +145,10 @@ def run_shard(spec, seed, tier) -> Acc:
     if spec["kind"] == "__corpus__":
         return core.corpus_shard(sys.modules[__name__], acc)
     is_known, _ = core.known_matcher(ID)
-    core.hyp_run(case_strategy({"rotate": spec.get("rotate", 0)}), check_case, seed=seed, max_examples=spec["n"], acc=acc,
+    opts = {"rotate": spec.get("rotate", 0)}
+    if spec.get("focus"):
+        opts["only_ops"] = c01.focus_ops(spec["focus"])
+    core.hyp_run(case_strategy(opts, max_ops=spec.get("max_ops", 5), min_ops=spec.get("min_ops", 0)), check_case, seed=seed, max_examples=spec["n"], acc=acc,
                  budget_s=420 if tier == "quick" else 3000, shrink=(tier == "thorough"), is_known=is_known)
     acc.extra["generation"] = dict(P.GEN_STATS)
     return acc
